@@ -5,6 +5,7 @@ package gogen
 import (
 	"go/ast"
 	"go/token"
+	"go/types"
 	"io"
 
 	"github.com/goplus/gogen/internal/go/format"
@@ -31,4 +32,9 @@ func VerifIsTerminating(list []ast.Stmt, panicCalls []*ast.CallExpr) bool {
 // VerifHasBreak exposes hasBreak.
 func VerifHasBreak(s ast.Stmt, label string, isTarget bool) bool {
 	return hasBreak(s, label, isTarget)
+}
+
+// VerifToType exposes toType: the syntax emitted for a type in this package's context.
+func VerifToType(pkg *Package, typ types.Type) ast.Expr {
+	return toType(pkg, typ)
 }
